@@ -639,7 +639,13 @@ func RunCrashScenario(sc *Scenario) (vd *Verdict) {
 							pub = append(pub, fmt.Sprint(x))
 						}
 						me.Properties[info.PublicNamespacesKey] = l
-						werr = r.H.Dataset("core.Dataset").StoreEntities([]*server.Entity{me})
+						if op.M["viaTxn"] == true {
+							// ... or names core.Dataset in a transaction (POST /transactions)
+							werr = r.H.Store.ExecuteTransaction(&server.Transaction{DatasetEntities: map[string][]*server.Entity{"core.Dataset": {me}}})
+							r.Stats["public_namespaces_set_by_transaction"]++
+						} else {
+							werr = r.H.Dataset("core.Dataset").StoreEntities([]*server.Entity{me})
+						}
 						if werr == nil {
 							st := r.settings[op.DS]
 							st.Public = pub
